@@ -194,10 +194,10 @@ static const char* const EK_NAMES[E_NKINDS] = {
     "rw.timedwr", "rw.unlock", "cv.wait", "cv.timedwait", "cv.signal", "cv.broadcast",
     "once", "guard.acquire", "guard.release", "futex.wait", "futex.wake", "a.load",
     "a.store", "a.rmw", "a.cas", "fence", "sleep", "spawn", "join", "ev.set",
-    "ev.wait", "ctr", "choose"};
+    "ev.wait", "ctr", "choose", "plain"};
 static const char* const DK_NAMES[D_NKINDS] = {"sched", "read", "signal", "choose",
                                               "spurious_wakeup", "time_jump",
-                                              "spurious_trylock", "throw"};
+                                              "spurious_trylock", "throw", "plain_preempt"};
 static const char* const ST_NAMES[gsim_ctl::N_STRATEGIES] = {"walk", "pct", "few",
                                                              "stall", "rr"};
 
@@ -436,6 +436,28 @@ bool fault_decide(int dkind)
     int v = decide_with(dkind, 2, 0, chosen);
     if (v) g_fault_fired[dkind]++;
     return v != 0;
+}
+
+// Pre-emption inside plain code: without it the code between two synchronisation /
+// atomic operations would always run atomically.  Enabled per run (knob
+// "plain_preempt": 0 off, 1 sparse, 2 dense); every plain access to arena memory by
+// a simulated thread is then a decision point.
+static int g_plain_mode = 0;
+void plain_access_point(const void* addr)
+{
+    if (!g_plain_mode) return;
+    Thread* t = tl_self;
+    if ((long)g_step >= g_s_fault || !g_faults_on) return;
+    int chosen = 0;
+    if (!g_replay)
+        chosen = g_rng_sched.below(1000) < (uint32_t)(g_plain_mode == 1 ? 15 : 80) ? 1 : 0;
+    t->in_rt++;
+    int v = decide_with(D_PLAIN, 2, 0, chosen);
+    if (v) {
+        g_fault_fired[D_PLAIN]++;
+        sched_point(E_PLAIN, addr);
+    }
+    t->in_rt--;
 }
 
 // decision with uniformly random non-default alternative (search mode)
@@ -829,12 +851,20 @@ static void run_common(const gsim::Workload* w)
     memset(g_fault_rate, 0, sizeof g_fault_rate);
     g_faults_on = true;
     g_rw_pref = 0;
+    g_plain_mode = 0;
     g_force_next = -1;
     g_check_races = false;
     g_prio_floor = 0;
     sync_run_reset();
     mem_run_reset();
     heap_run_begin();
+    {
+        // swarm: plain-code pre-emption in a quarter of the runs (recorded as a knob so
+        // that a replay has the same decision points)
+        int pm = gsim::knob("plain_preempt", 0, 7);
+        g_plain_mode = pm == 6 ? 1 : pm == 7 ? 2 : (pm <= 5 ? 0 : 0);
+        if (gsim::param_int("plain", -1) >= 0) g_plain_mode = gsim::param_int("plain", 0);
+    }
     Thread* t0 = &g_thr[0];
     t0->st = T_RUNNABLE;
     t0->fn = [](void*) { g_wl->run(); };
